@@ -1,4 +1,4 @@
-import GardenVerif.Lemmas.RefSem
+import GardenVerif.Lemmas.AlphaClosure
 /-!
 # C19 — Rename changes exactly the occurrences of one variable
 
@@ -9,15 +9,18 @@ shadowing, closures) are renamed to `y`; nothing else changes (ids and use flags
 `IsAlphaRename p p' site x y := p' = renProg ⟨site, x, y⟩ p` is decided by `alphaCheck`, which the
 driver evaluates on the two trees of the REAL parser (before / after `garden reftest-rename`).
 
-Proved here, for ALL programs and all fuel:
+Proved here, for ALL programs (closures included) and all fuel:
 * `alphaCheck_sound` — the decision procedure implies the relation;
-* `alpha_sound_partial` — related programs, `y` fresh, have the same run (same result, same store,
-  same printed output) under `RefSem` restricted to closure-free evaluation (`cl = false`: a `fun`
-  literal / closure call is `unsupported` on both sides).
-  FULL STATEMENT NOT PROVED: `alpha_sound : … → ∀ fuel, behaviour true p' fuel = behaviour true p fuel`
-  (closures: closure values of the two runs differ by the renaming, so the proof needs a value /
-  store relation instead of equality; the relation and the checker already cover closures, and the
-  direct oracle runs the real interpreter on closure-capturing programs).
+* `alpha_sound` — related programs, `y` fresh, have the same observable behaviour under the FULL reference
+  semantics `RefSem` (`cl = true`: closures capture by value, as the evaluator does): the run ends the same way
+  and prints the same, for every fuel. It is a corollary of
+* `alpha_sound_related` — the two runs end with results and stores related by `Validators.VRel`: equal except
+  that a closure value of the renamed run carries the renamed parameters / body and a captured environment
+  whose entries for the renamed binder are called `y` (closure values carry code, so equality is impossible);
+  `VRel`-related values display equally (`VRel.display`) and compare equally (`VRel.valueEq`), which is why
+  the printed output is EQUAL;
+* `alpha_sound_exact_closure_free` — for the closure-free restriction (`cl = false`) the runs are EQUAL (same
+  result value, same store, same output);
 * `apply_renames_spec` — exact model of `apply_renames` (src/rename.rs 87-101): on a text cut into
   (gap, token) segments, given the token positions in any order, it returns the text with exactly
   those tokens replaced and every gap untouched, and does not panic.
@@ -35,7 +38,7 @@ theorem alphaCheck_sound (p p' : Program) (site : Site) (x y : String)
 
 /-- Alpha-renaming one binder to a fresh name does not change the run (closure-free restriction
 of the reference semantics): same result, same final store, same printed output, for every fuel. -/
-theorem alpha_sound_partial (p p' : Program) (site : Site) (x y : String)
+theorem alpha_sound_exact_closure_free (p p' : Program) (site : Site) (x y : String)
     (h : IsAlphaRename p p' site x y) (hfresh : freshProg y p = true)
     (hx : x ≠ "_") (hy : y ≠ "_") (hxy : x ≠ y) :
     ∀ fuel, run false p' fuel = run false p fuel := by
@@ -48,19 +51,68 @@ theorem alpha_sound_partial (p p' : Program) (site : Site) (x y : String)
   exact (sound_all hc fuel).seq false [] [] St.init p.toplevel ER.nil hfresh.2
 
 /-- Same observable behaviour (how the run ends, what it printed). -/
-theorem alpha_sound_behaviour_partial (p p' : Program) (site : Site) (x y : String)
+theorem alpha_sound_behaviour_closure_free (p p' : Program) (site : Site) (x y : String)
     (h : IsAlphaRename p p' site x y) (hfresh : freshProg y p = true)
     (hx : x ≠ "_") (hy : y ≠ "_") (hxy : x ≠ y) :
     ∀ fuel, behaviour false p' fuel = behaviour false p fuel := by
   intro fuel
-  simp only [behaviour, alpha_sound_partial p p' site x y h hfresh hx hy hxy fuel]
+  simp only [behaviour, alpha_sound_exact_closure_free p p' site x y h hfresh hx hy hxy fuel]
 
 /-- What the driver's verdict gives: check passed ⇒ same behaviour. -/
-theorem alphaCheck_behaviour_partial (p p' : Program) (site : Site) (x y : String)
+theorem alphaCheck_behaviour_closure_free (p p' : Program) (site : Site) (x y : String)
     (h : alphaCheck p p' site x y = true) (hfresh : freshProg y p = true)
     (hx : x ≠ "_") (hy : y ≠ "_") (hxy : x ≠ y) :
     ∀ fuel, behaviour false p' fuel = behaviour false p fuel :=
-  alpha_sound_behaviour_partial p p' site x y (alphaCheck_sound p p' site x y h) hfresh hx hy hxy
+  alpha_sound_behaviour_closure_free p p' site x y (alphaCheck_sound p p' site x y h) hfresh hx hy hxy
+
+/-- `alpha_sound`, relational form (FULL semantics, closures included): the runs of `p` and of its
+alpha-renaming end with `VRel`-related results and stores and the same printed output, for every fuel
+and both settings of `cl`. -/
+theorem alpha_sound_related (p p' : Program) (site : Site) (x y : String)
+    (h : IsAlphaRename p p' site x y) (hfresh : freshProg y p = true)
+    (hx : x ≠ "_") (hy : y ≠ "_") (hxy : x ≠ y) (cl : Bool) :
+    ∀ fuel, PR ⟨site, x, y⟩ (run cl p fuel) (run cl p' fuel) := by
+  intro fuel
+  unfold IsAlphaRename at h
+  subst h
+  simp only [freshProg, Bool.and_eq_true, List.all_eq_true] at hfresh
+  have hc : RCtx ⟨site, x, y⟩ p (renProg ⟨site, x, y⟩ p) :=
+    { hx := hx, hy := hy, hxy := hxy, funs := rfl, enums := rfl, freshFuns := hfresh.1 }
+  exact (soundC_all hc fuel).seq false [] [] St.init St.init p.toplevel ER.nil ⟨.nil, rfl⟩ hfresh.2
+
+/-- `alpha_sound` (no closure-free hypothesis): renaming one binder, and exactly the occurrences
+that resolve to it, to a fresh name leaves the observable behaviour — how the run ends and what it
+prints — unchanged, for every fuel, under the full reference semantics. -/
+theorem alpha_sound (p p' : Program) (site : Site) (x y : String)
+    (h : IsAlphaRename p p' site x y) (hfresh : freshProg y p = true)
+    (hx : x ≠ "_") (hy : y ≠ "_") (hxy : x ≠ y) :
+    ∀ fuel, behaviour true p' fuel = behaviour true p fuel := by
+  intro fuel
+  have hr := alpha_sound_related p p' site x y h hfresh hx hy hxy true fuel
+  simp only [behaviour, hr.1.outcome, hr.2.2]
+
+/-- What the driver's verdict gives, closures included: check passed ⇒ same behaviour. -/
+theorem alphaCheck_behaviour (p p' : Program) (site : Site) (x y : String)
+    (h : alphaCheck p p' site x y = true) (hfresh : freshProg y p = true)
+    (hx : x ≠ "_") (hy : y ≠ "_") (hxy : x ≠ y) :
+    ∀ fuel, behaviour true p' fuel = behaviour true p fuel :=
+  alpha_sound p p' site x y (alphaCheck_sound p p' site x y h) hfresh hx hy hxy
+
+/-- Closure capturing the renamed variable: `let x = 1; let f = fun(a) { a + x }; let x = 2; f(x)`,
+renaming the FIRST `x`: the use inside the closure follows, the second binder and its use do not. -/
+example :
+    let p : Program := ⟨[], [], [.letE 1 false (.sym "x") (.int 2 true 1),
+      .letE 3 false (.sym "f") (.lambda 4 true ["a"] [.binop 5 true .add (.var 6 true "a") (.var 7 true "x")]),
+      .letE 8 false (.sym "x") (.int 9 true 2),
+      .call 10 true (.var 11 true "f") [.var 12 true "x"]]⟩
+    (renProg ⟨.node 1 0 0, "x", "y"⟩ p).toplevel =
+      [.letE 1 false (.sym "y") (.int 2 true 1),
+       .letE 3 false (.sym "f") (.lambda 4 true ["a"] [.binop 5 true .add (.var 6 true "a") (.var 7 true "y")]),
+       .letE 8 false (.sym "x") (.int 9 true 2),
+       .call 10 true (.var 11 true "f") [.var 12 true "x"]] ∧
+    freshProg "y" p = true := by
+  simp [renProg, renSeq, renList, ren, actAfter, renDest, renName, renNames, hitNode, rn, freshProg, freshSeq,
+    fresh, freshDest, freshNames]
 
 /-- `apply_renames`: replacing the tokens at the given positions (any order; sorted first, as the
 Rust does) of a segmented text yields the text with exactly those tokens replaced — no panic. -/
